@@ -131,6 +131,9 @@ async def match_daemons(
         daemon.handler.id: daemon
         for daemon in daemons.values()
         if daemon.handler.id not in matching_daemon_ids
+        # Keep on stopping those asked to stop for a mismatch, even if they match again meanwhile:
+        # the stages go on, and the next cycle after their exit re-spawns them (see the delays).
+        or daemon.stopper.is_set(reason=stoppers.DaemonStoppingReason.FILTERS_MISMATCH)
     }
     delays = await stop_daemons(
         settings=settings,
